@@ -1478,7 +1478,7 @@ class Application(LdapObject):
 
     def to_entry(self, obj):
         """Converts app dictionary to LDAP entry."""
-        if 'ephemeral_ports' in obj:
+        if obj.get('ephemeral_ports'):
             obj['ephemeral_ports_tcp'] = obj['ephemeral_ports'].get('tcp', 0)
             obj['ephemeral_ports_udp'] = obj['ephemeral_ports'].get('udp', 0)
 
